@@ -55,6 +55,13 @@ def pivot():
     S.append(DSpec(EnumSpec("ManyDerives", [U("A"), U("B", fields=[Field("u8")])], note="several module-qualified derive paths, split over two attributes"),
                    dderives=["strum::EnumIter", "strum::EnumCount", "strum::AsRefStr"], extra=["#[strum_discriminants(derive(core::hash::Hash, strum::VariantNames))]"],
                    checks={"iter", "many"}))
+    S.append(DSpec(EnumSpec("TwoRepr", [U("A"), U("B", fields=[Field("u8")]), U("C", disc="9", disc_val=9)], repr="u8", raw_attrs=["#[repr(C)]"],
+                            note="#[repr(C)] #[repr(u8)] as two attributes: the discriminant enum must carry the integer repr"),
+                   checks={"size1"}))
+    S.append(DSpec(EnumSpec("DocPass", [U("Rect", fields=[Field("u8")], raw_attrs=['#[strum_discriminants(doc = " Kind tag for rectangles")]']),
+                                        U("Circle", raw_attrs=['#[strum_discriminants(strum(message = "round"))]'])],
+                            note="name-value pass-through (doc = ..) and list pass-through on variants, observed through EnumMessage on the discriminant enum"),
+                   dname="DocKind", dderives=["strum::EnumMessage"], checks={"docpass"}))
     S.append(DSpec(EnumSpec("Dis", [U("A"), U("H", disabled=True, fields=[Field("u8")]), U("B")], note="a strum(disabled) variant is still mirrored"),
                    dderives=["strum::EnumIter"], checks={"iter"}))
     return S
@@ -144,6 +151,12 @@ def program(ds: DSpec, pname, tier):
         lines.append("    assert!(core::mem::size_of::<%s>() == core::mem::size_of::<%s>(), \"#[repr] was not copied to the discriminant enum\");" % (D, R))
         lines.append("    let tag: %s = unsafe { *(&e as *const %s as *const %s) };   // primitive-repr enums start with their tag" % (R, E, R))
         lines.append('    assert!(tag == d_ref as %s, "the discriminant value differs from the real tag of the value");' % R)
+    if "size1" in ds.checks:
+        lines.append('    assert!(core::mem::size_of::<%s>() == 1, "the integer #[repr] given in a second attribute was not mirrored");' % D)
+    if "docpass" in ds.checks:
+        lines.append("    { use strum::EnumMessage;")
+        lines.append('      assert!(%s::Rect.get_documentation() == Some("Kind tag for rectangles"), "variant-level strum_discriminants(doc = ..) had no effect");' % D)
+        lines.append('      assert!(%s::Circle.get_message() == Some("round"), "variant-level strum_discriminants(strum(message = ..)) had no effect"); }' % D)
     if "layout_c" in ds.checks:
         lines.append('    assert!(core::mem::size_of::<%s>() == core::mem::size_of::<core::ffi::c_int>(), "#[repr(C)] was not copied to the discriminant enum");' % D)
     if "layout_c_align8" in ds.checks:
